@@ -512,7 +512,7 @@ def part_templates(ctx, tie_ok):
         exprs.append("[" + cell + "]")
         meta.append((t, vals))
     imp = ("From Verif Require Import C06.Abi C06.Sexp C06.SxEval C06.VxEval C06.GenTplEncL C06.GenTplEncV.\n")
-    outs = coqrun.eval_zlists(imp, exprs, "c06tplrun", shard=8, timeout=400)
+    outs = coqrun.eval_zlists(imp, exprs, "c06tplrun", shard=8, timeout=900)
     n = 0
     for (t, vals), o in zip(meta, outs):
         n += len(o)
@@ -532,7 +532,7 @@ def part_templates(ctx, tie_ok):
                                      f"{A.coq_val(ts, v)}" for v in vals) + "]")
         meta.append((ts, td, vals))
     imp = "From Verif Require Import C06.Abi C06.Sexp C06.SxEval C06.VxEval C06.Widen C06.GenTplNorm.\n"
-    outs = coqrun.eval_zlists(imp, exprs, "c06normrun", shard=8, timeout=400)
+    outs = coqrun.eval_zlists(imp, exprs, "c06normrun", shard=8, timeout=900)
     for (ts, td, vals), o in zip(meta, outs):
         n += len(o)
         if any(x != 1 for x in o):
